@@ -51,7 +51,12 @@ fn explain_plan(cli: &super::super::args::Cli, engine: &Engine) -> anyhow::Resul
             .as_ref()
             .map(load_managed_paths_from_snapshot)
             .transpose()?
-            .map(|m| super::super::util::filter_managed(m, &cli.target))
+            .map(|m| {
+                super::super::util::filter_managed(
+                    crate::handlers::read_only::retain_under_roots(m, &roots),
+                    &cli.target,
+                )
+            })
     };
     let plan = compute_plan(&desired, managed_paths.as_ref())?;
 
